@@ -2,7 +2,7 @@ package sstable
 
 // Demonstration of the recorded findings C11/seek-lands-in-the-right-interval and C11/index-seek-agrees-with-index-key
 // (copy into pkg/sstable and run: go test -vet=off -count=1 ./pkg/sstable -run TestFindingSeek -v).
-// It FAILS on the tree as it is: Seek(k) does not land on k for most keys.
+// It FAILED on the tree before the repair 9ebed55 (Seek(k) did not land on k for most keys) and passes since.
 
 import (
 	"bytes"
